@@ -923,7 +923,10 @@ def run(ck):
                 reg.reset()
                 y = reg.call((b, text))
                 reg.reset()
-                if x != y:
+                # exactness of the factor is not promised when one path goes through float powers (a string that
+                # spells one unit twice with non-integer exponents): then only the units are compared
+                inexact = x[0] == y[0] == "ok" and "float" in (x[1][0], y[1][0])
+                if (x[1][1] != y[1][1]) if inexact else (x != y):
                     fails.add(f"entry-point-{what}:{label}:{text}",
                               f"registry({label}): {what}({text!r}) = {x} but {what}(parse_units({text!r})) = {y}", {**rp, "string": x, "unit": y})
             if ou[0] == "ok" and ou[1] and all(T.units[k].mult for k, _ in ou[1] if k in T.units) and all(k in T.with_lazy or True for k, _ in ou[1]):
